@@ -216,7 +216,14 @@ int main() {
     Runner R; R.mode = mode[0]; R.dflt = cap == "D"; R.cap = R.dflt ? 0 : strtoul(cap.c_str(), nullptr, 10);
     R.create();
     std::vector<Op> pre;
-    if (prefill != "-") { std::stringstream ps(prefill); std::string k; while (std::getline(ps, k, ',')) { Op op; op.k = 'E'; op.pre = true; op.key = atoi(k.c_str()); op.v = 9000 + op.key; R.emplace_like(op); pre.push_back(op); } }
+    if (prefill != "-") {
+      std::stringstream ps(prefill); std::string k;
+      while (std::getline(ps, k, ',')) { Op op; op.k = 'E'; op.pre = true; op.key = atoi(k.c_str()); op.v = 9000 + op.key; pre.push_back(op); }
+      // sequential, but under the scheduler: a broken table that spins for ever is reported as DSCHED-STUCK
+      std::vector<std::function<void()>> pb; pb.push_back([&] { for (auto& op : pre) R.emplace_like(op); });
+      verif::Options po; po.seed = 1; po.strategy = 0; po.max_steps = 200000;
+      verif::run(pb, po);
+    }
     std::vector<std::function<void()>> bodies;
     for (size_t t = 0; t < threads.size(); ++t) {
       bodies.push_back([&, t] {
